@@ -33,6 +33,18 @@ CLAIMED.update({
     "C20": ("exhaustive class-pair x length cells + Hypothesis-generated 6-vectors, inertias and rigid motions against explicit 6x6 matrix formulas",
             EXPL + "typed arithmetic is enumerated over every ordered pair of the four spatial-vector classes and lengths 1..3; cross products, parallel-axis inertia, inertia sums/products and SE3 premultiplication are compared with explicit matrix formulas for magnitudes 1e-6..1e6.",
             "reference adjoint / skew from pbt/refs.py; 1e-9 relative", "4/C20"),
+    "C02": ("Hypothesis-generated triples and expression trees (depth<=5) per class; both sides of each group law evaluated by the library and against a NumPy reference; structured inverse vs 50-digit mpmath inverse",
+            EXPL + "associativity, identity, two-sided inverse, (XY)^-1, division, integer powers |n|<=8, sequence product and random expression trees are evaluated in SO2/SE2/SO3/SE3/UnitQuaternion (and * / inv for Twist2/Twist3, compared as motions) over rotation angles in [0,pi] incl. both ends and translations to 1e6.",
+            "NumPy reference evaluation with transposed-rotation inverses, mpmath inverse; tolerance scaled by the largest intermediate translation", "4/C02"),
+    "C06": ("Hypothesis-generated poses, point sets (d x N, N=1..7) and container forms; differential oracle R p + t with all representations built from the same reference parameters",
+            EXPL + "SO/SE/UnitQuaternion/UnitDualQuaternion objects and the homtrans/qvmul/h2e routes are applied to points in every container form and compared with NumPy R p + t, plus composition/inverse/isometry/column-wise and multi-valued-pose relations, coordinates 1e-6..1e6.",
+            "reference q2r / Rodrigues from pbt/refs.py; 1e-9 relative to max(1,|t|,|p|)", "4/C06"),
+    "C07": ("exhaustive (class x defect x container) cells + Hypothesis-generated perturbed members; independent distance-from-group oracle deciding must-raise / must-accept / contents of any returned object",
+            EXPL + "every constructor class is fed valid, noisy (1e-12..1), reflected, scaled, last-row-corrupted, non-algebra and wrongly shaped arrays bare and inside lists (also mixed with valid items); membership, skew, identity, unit and zero predicates are judged outside a 1e-6 band.",
+            "distance proxy = orthogonality residual / determinant sign / last row / algebra residual; values between 5e-15 and 1e-5 from the group may go either way", "4/C07"),
+    "C12": ("exact randomized polynomial-identity testing on 64-bit integers through the library's own code (object arrays) + Hypothesis float cases + SymPy expansion of the same identities",
+            EXPL + "Hamilton-algebra identities are executed exactly on big integers (Schwartz-Zippel identity test), in floats for magnitudes 1e-6..1e6, for powers |n|<=6, the 3-vector form, rate functions, exp/log, and dual quaternions (associativity, 8x8 matrix, conjugate, norm).",
+            "Python integer arithmetic; reference product table in pbt/refs.py; the symbolic pass is supplementary", "4/C12"),
 })
 
 NOT_YET = {}
